@@ -1,2 +1,250 @@
-(* Properties/C11.v — property theorems only. (stub) *)
+(* Properties/C11.v — Parsers are total: arbitrary bytes never panic, accepted records
+   are stable; a malformed SAM line is isolated.  Only statements; every proof is
+   [exact <lemma>] (Proofs/TotalProofsB.v, TotalProofsC.v, and the family proofs).
+
+   The six decoders are the family models: Fasta.decode, Fastq.decode, Bed.decode
+   (iter.go Reader over reader.read), Sam.reader_header (ReaderHeader; Sam.reader is
+   a filter of it), Newick.decode, Smtext.read_ncbi.  Every theorem below quantifies
+   over ALL byte strings (lists of N, a superset of real bytes) and both terminal
+   conditions of the stream.
+
+   Panic sites.  Fasta.decode, Fastq.decode and Bed.decode return plain item lists:
+   their types have no Panic outcome at all (the Go readers contain no indexing,
+   slicing or explicit panic that the models had to represent; bed's parseLine
+   returns an [outcome] and is covered separately).  For these the meaningful
+   content of "total" is stated instead: the fuel of the FASTA loop suffices, the
+   FASTQ items always have the shape records + at most one error, and the
+   MarshalText self-checks of fasta and fastq (the two explicit panic sites of the
+   codecs) never fire. *)
+From Coq Require Import String.
 From Bio Require Import Base.
+From Bio.Model Require Fasta Fastq Sam Bed Newick Smtext.
+From Bio.Spec Require FastaSpec FastqSpec BedSpec SamSpec NewickSpec.
+From Bio.Proofs Require FastaProofs FastaProofsB FastqProofs FastqProofsB SamProofsB NewickProofsC SmtextProofsC.
+From Bio.Proofs Require Import TotalProofsB TotalProofsC.
+
+(* ---- totality ------------------------------------------------------------------------------- *)
+
+(* FASTA: the reader loop is run with fuel [length input + 1]; it never runs out: any
+   larger fuel gives the same items (re-export of C01_decode_fuel_sufficient). *)
+Theorem C11_fasta_decode_total : forall inp t f,
+  (length inp < f)%nat -> Fasta.decode_fuel f inp t = Fasta.decode inp t.
+Proof. exact FastaProofsB.decode_fuel_sufficient. Qed.
+Print Assumptions C11_fasta_decode_total.
+
+(* FASTQ: the reader is structurally recursive on the Scanner's tokens (no fuel); for
+   every input it yields records, each with |qualities| = |sequence|, then at most one
+   error (re-export of C02_items_shape). *)
+Theorem C11_fastq_decode_total : forall s t,
+  exists rs, Forall (fun r => length (Fastq.quals r) = length (Fastq.seq r)) rs
+    /\ (Fastq.decode s t = map Rec rs ++ [ErrItem] \/ (t = TEOF /\ Fastq.decode s t = map Rec rs)).
+Proof. exact FastqProofsB.decode_shape. Qed.
+Print Assumptions C11_fastq_decode_total.
+
+(* the MarshalText length self-checks (panic sites of the two codecs) never fire *)
+Theorem C11_fasta_marshal_no_panic : forall r, Fasta.marshal_text r = Ok (Fasta.write r).
+Proof. exact FastaProofs.marshal_total. Qed.
+Print Assumptions C11_fasta_marshal_no_panic.
+
+Theorem C11_fastq_marshal_no_panic : forall r, Fastq.marshal_text r = Ok (Fastq.write r).
+Proof. exact FastqProofs.marshal_total. Qed.
+Print Assumptions C11_fastq_marshal_no_panic.
+
+(* SAM: parseLine on any list of fields (any count: the length checks before the
+   indexing of line[0..10], parseInts' length check, the colon positions of splitTag
+   and the single-character 'A' check) never panics (re-export of
+   C03_parse_line_no_panic); ReaderHeader calls nothing else that could. *)
+Theorem C11_sam_decode_total : forall o fields, Sam.parse_line o fields <> Panic.
+Proof. exact SamProofsB.parse_line_no_panic. Qed.
+Print Assumptions C11_sam_decode_total.
+
+(* BED: parseLine on any list of fields (field count, RGB triple, block list lengths) *)
+Theorem C11_bed_decode_total : forall fields, Bed.parse_line fields <> Panic.
+Proof. exact bed_parse_line_no_panic. Qed.
+Print Assumptions C11_bed_decode_total.
+
+(* Newick: neither read()'s panic("unexpected state") nor an exhausted fuel
+   (re-export of C05_no_panic) *)
+Theorem C11_newick_decode_total : forall o s tm, Newick.decode o s tm <> Panic.
+Proof. exact NewickProofsC.decode_no_panic. Qed.
+Print Assumptions C11_newick_decode_total.
+
+(* NCBI matrix reader (re-export of C20_read_ncbi_total) *)
+Theorem C11_smtext_decode_total : forall o s t, Smtext.read_ncbi o s t <> Panic.
+Proof. exact SmtextProofsC.read_ncbi_total. Qed.
+Print Assumptions C11_smtext_decode_total.
+
+(* ---- SAM: lines are independent ---------------------------------------------------------------
+   [unlines ls]: every line followed by LF.  [item_of_line o l]: nothing for an empty line,
+   the header for a line starting with '@', else the record or ONE error, decided by
+   parseLine on the TAB-split of that line alone. *)
+Theorem C11_sam_lines_independent : forall o ls, Forall (clean [CR; LF]) ls ->
+  Sam.reader_header o (unlines ls) TEOF = flat_map (item_of_line o) ls.
+Proof. exact sam_lines_independent. Qed.
+Print Assumptions C11_sam_lines_independent.
+
+(* hence: one malformed line at ANY position of ANY file gives exactly one error in that
+   position; the items before and after it are those of the file without the line *)
+Theorem C11_sam_bad_line_isolated : forall o pre bad post,
+  Forall (clean [CR; LF]) pre -> clean [CR; LF] bad -> Forall (clean [CR; LF]) post ->
+  item_of_line o bad = [ErrItem] ->
+  Sam.reader_header o (unlines (pre ++ bad :: post)) TEOF
+  = Sam.reader_header o (unlines pre) TEOF ++ [ErrItem] ++ Sam.reader_header o (unlines post) TEOF.
+Proof. exact sam_bad_line_isolated. Qed.
+Print Assumptions C11_sam_bad_line_isolated.
+
+(* the corruption kinds of the property are such lines: a non-empty, non-header line ... *)
+Theorem C11_sam_malformed_is_one_error : forall o c l, (c =? 64) = false ->
+  Sam.parse_line o (split_on TAB (c :: l)) = Err -> item_of_line o (c :: l) = [ErrItem].
+Proof. exact item_of_line_err. Qed.
+Print Assumptions C11_sam_malformed_is_one_error.
+
+(* ... with too few fields, *)
+Theorem C11_sam_too_few_fields : forall o fs, (length fs < 11)%nat -> Sam.parse_line o fs = Err.
+Proof. exact parse_line_too_few. Qed.
+Print Assumptions C11_sam_too_few_fields.
+
+(* ... or a non-numeric integer field (FLAG, POS, MAPQ, PNEXT, TLEN), *)
+Theorem C11_sam_bad_int : forall o f0 f1 f2 f3 f4 f5 f6 f7 f8 f9 f10 rest,
+  atoi f1 = None \/ atoi f3 = None \/ atoi f4 = None \/ atoi f7 = None \/ atoi f8 = None ->
+  Sam.parse_line o (f0 :: f1 :: f2 :: f3 :: f4 :: f5 :: f6 :: f7 :: f8 :: f9 :: f10 :: rest) = Err.
+Proof. exact parse_line_bad_int. Qed.
+Print Assumptions C11_sam_bad_int.
+
+(* ... or an ill-formed (fewer than two colons) or ill-typed (unknown type, or a value the
+   type does not admit) tag anywhere among its tags. *)
+Theorem C11_sam_bad_tag : forall o f0 f1 f2 f3 f4 f5 f6 f7 f8 f9 f10 rest bad,
+  In bad rest ->
+  (Sam.split_tag bad = None \/
+   exists name ty v, Sam.split_tag bad = Some (name, ty, v) /\ Sam.parse_tag_value o ty v = None) ->
+  Sam.parse_line o (f0 :: f1 :: f2 :: f3 :: f4 :: f5 :: f6 :: f7 :: f8 :: f9 :: f10 :: rest) = Err.
+Proof. exact parse_line_bad_tag. Qed.
+Print Assumptions C11_sam_bad_tag.
+
+(* ---- accepted records are fixed points of their codec ------------------------------------------
+   [x] is an ARBITRARY input (any bytes, any terminal condition): whatever record the reader
+   accepts from it, if its text fields are free of the format's delimiter bytes, writing it and
+   reading the text back yields exactly that record. *)
+
+(* FASTQ: the three fields free of CR/LF; |qualities| = |sequence| holds for every accepted
+   record by the reader's check *)
+Theorem C11_fastq_fixed_point : forall x t r,
+  In (Rec r) (Fastq.decode x t) -> fastq_clean r ->
+  Fastq.decode (Fastq.write r) TEOF = [Rec r].
+Proof. exact fastq_fixed_point. Qed.
+Print Assumptions C11_fastq_fixed_point.
+
+(* FASTA: accepted names and sequences are free of CR and LF by construction of the reader's
+   byte machine, so the only hypothesis is the property's "no '>' inside the sequence" *)
+Theorem C11_fasta_fixed_point : forall x t r,
+  In (Rec r) (Fasta.decode x t) -> ~ In Fasta.GT (Fasta.seq r) ->
+  Fasta.decode (Fasta.write r) TEOF = [Rec r].
+Proof. exact fasta_fixed_point. Qed.
+Print Assumptions C11_fasta_fixed_point.
+
+(* BED: Chrom and Name free of TAB/CR/LF.  Everything else an accepted record needs to be in
+   the domain of C04 holds by construction: N in 3..12, Go ints, RGB bytes, a valid strand,
+   block lists as long as the count, Chrom not starting with '#', and zero values beyond the N
+   fields (so the record itself, not just its first N fields, comes back). *)
+Theorem C11_bed_fixed_point : forall x t b,
+  In (Rec b) (Bed.decode x t) -> bed_clean b ->
+  exists w, Bed.write b = Ok w /\ Bed.decode w TEOF = [Rec b].
+Proof. exact bed_fixed_point. Qed.
+Print Assumptions C11_bed_fixed_point.
+
+(* SAM: the six text fields, tag names, 'A' and 'Z' values free of the delimiters and
+   strconv's contract for the 'f' values the record carries ([sam_clean]).  The record read
+   back is the same record with the same tag map ([sam_eq]: the eleven fields equal, the tag
+   lists equal up to order, names unique; floats are compared by canonical text, NaN = NaN).
+   What the FIRST read normalises is already part of the accepted record: a 'B' tag is kept as
+   a string, "+5" is 5, a repeated tag name keeps its last value. *)
+Theorem C11_sam_fixed_point : forall o x t r,
+  In (Rec (Sam.Aln r)) (Sam.reader_header o x t) -> sam_clean o r ->
+  exists r', Sam.reader_header o (Sam.write o r) TEOF = [Rec (Sam.Aln r')] /\ SamSpec.sam_eq r r'.
+Proof. exact sam_fixed_point. Qed.
+Print Assumptions C11_sam_fixed_point.
+
+(* Newick: any accepted tree whose written (non-zero) distances meet strconv's contract; names
+   need no hypothesis (quoting handles every byte).  The tree read back is [norm tr]: equal to
+   [tr] except that a distance -0, which is not written, reads back as 0.  (The hypothesis that
+   the tree was accepted is not needed: C05 holds for all trees.) *)
+Theorem C11_newick_fixed_point : forall o x t items tr,
+  Newick.decode o x t = Ok items -> In (Rec tr) items -> NewickSpec.floats_ok o tr ->
+  Newick.decode o (Newick.marshal o tr) TEOF = Ok [Rec (NewickSpec.norm tr)].
+Proof. exact newick_fixed_point. Qed.
+Print Assumptions C11_newick_fixed_point.
+
+(* ---- non-vacuity ---------------------------------------------------------------------------------- *)
+Definition C11_o : foracle := {| f_parse := []; f_fmt := [] |}.
+
+(* a FASTQ input with a good record followed by garbage: the record is accepted and clean *)
+Definition C11_fq_input : bytes := bs "@r" ++ [LF] ++ bs "AC" ++ [LF] ++ bs "+x" ++ [LF] ++ bs "I@" ++ [LF] ++ bs "junk".
+Definition C11_fq_rec : Fastq.fastq := {| Fastq.name := bs "r"; Fastq.seq := bs "AC"; Fastq.quals := bs "I@" |}.
+Example C11_fastq_example :
+  Fastq.decode C11_fq_input TEOF = [Rec C11_fq_rec; ErrItem]
+  /\ fastq_clean C11_fq_rec
+  /\ Fastq.decode (Fastq.write C11_fq_rec) TEOF = [Rec C11_fq_rec].
+Proof.
+  split; [vm_compute; reflexivity|]. split; [repeat constructor|].
+  apply (C11_fastq_fixed_point C11_fq_input TEOF); [vm_compute; left; reflexivity | repeat constructor].
+Qed.
+
+(* FASTA: blank lines first fabricate an empty record; both records are fixed points *)
+Example C11_fasta_example :
+  Fasta.decode ([LF; LF] ++ bs ">a" ++ [LF] ++ bs "AC" ++ [CR; LF] ++ bs "G") TEOF
+    = [Rec {| Fasta.name := []; Fasta.seq := [] |}; Rec {| Fasta.name := bs "a"; Fasta.seq := bs "ACG" |}]
+  /\ Fasta.decode (Fasta.write {| Fasta.name := bs "a"; Fasta.seq := bs "ACG" |}) TEOF
+    = [Rec {| Fasta.name := bs "a"; Fasta.seq := bs "ACG" |}].
+Proof. vm_compute. split; reflexivity. Qed.
+
+(* BED: "+1", empty optional fields and a hexadecimal RGB part are normalised by the first
+   read; the accepted record then is a fixed point *)
+Definition C11_bed_input : bytes :=
+  bs "c" ++ [TAB] ++ bs "+1" ++ [TAB] ++ bs "2" ++ [TAB] ++ bs "n" ++ [TAB; TAB; TAB; TAB; TAB] ++ bs "0x10,1,1" ++ [LF].
+Definition C11_bed_rec : Bed.bed :=
+  Bed.mkBed 9 (bs "c") 1 2 (bs "n") 0 [] 0 0 (16, 1, 1) 0 [] [].
+Example C11_bed_example :
+  Bed.decode C11_bed_input TEOF = [Rec C11_bed_rec]
+  /\ bed_clean C11_bed_rec
+  /\ Bed.write C11_bed_rec
+     = Ok (bs "c" ++ [TAB] ++ bs "1" ++ [TAB] ++ bs "2" ++ [TAB] ++ bs "n" ++ [TAB] ++ bs "0" ++ [TAB; TAB]
+           ++ bs "0" ++ [TAB] ++ bs "0" ++ [TAB] ++ bs "16,1,1" ++ [LF])
+  /\ Bed.decode (bs "c" ++ [TAB] ++ bs "1" ++ [TAB] ++ bs "2" ++ [TAB] ++ bs "n" ++ [TAB] ++ bs "0" ++ [TAB; TAB]
+           ++ bs "0" ++ [TAB] ++ bs "0" ++ [TAB] ++ bs "16,1,1" ++ [LF]) TEOF = [Rec C11_bed_rec].
+Proof.
+  split; [vm_compute; reflexivity|]. split; [split; repeat constructor|].
+  split; vm_compute; reflexivity.
+Qed.
+
+(* SAM: a file with a header, a line with too few fields, an empty line, a record with a 'B'
+   tag and "+5", and a line with an ill-typed tag: one error per bad line, neighbours intact;
+   the accepted record is clean *)
+Definition C11_sam_line : bytes :=
+  bs "q" ++ [TAB] ++ bs "+5" ++ [TAB] ++ bs "*" ++ [TAB] ++ bs "0" ++ [TAB] ++ bs "0" ++ [TAB] ++ bs "*" ++ [TAB]
+  ++ bs "*" ++ [TAB] ++ bs "0" ++ [TAB] ++ bs "0" ++ [TAB] ++ bs "AC" ++ [TAB] ++ bs "II".
+Definition C11_sam_rec : Sam.sam :=
+  {| Sam.s_qname := bs "q"; Sam.s_flag := 5; Sam.s_rname := bs "*"; Sam.s_pos := 0; Sam.s_mapq := 0;
+     Sam.s_cigar := bs "*"; Sam.s_rnext := bs "*"; Sam.s_pnext := 0; Sam.s_tlen := 0;
+     Sam.s_seq := bs "AC"; Sam.s_qual := bs "II";
+     Sam.s_tags := [(bs "XB", Sam.TZ (bs "c,1,2")); (bs "XA", Sam.TA 195)] |}.
+Example C11_sam_example :
+  Sam.reader_header C11_o
+    (unlines [bs "@h"; bs "too few"; []; C11_sam_line ++ [TAB] ++ bs "XB:B:c,1,2" ++ [TAB] ++ bs "XA:A:" ++ [195];
+              C11_sam_line ++ [TAB] ++ bs "XX:i:1.5"]) TEOF
+  = [Rec (Sam.Hdr (bs "@h")); ErrItem; Rec (Sam.Aln C11_sam_rec); ErrItem]
+  /\ sam_clean C11_o C11_sam_rec.
+Proof.
+  split; [vm_compute; reflexivity|].
+  unfold sam_clean. repeat match goal with |- _ /\ _ => split end; try (repeat constructor).
+Qed.
+
+(* Newick: the accepted tree ('a b':1,c)d:-0; reads back with the distance 0 *)
+Definition C11_nw_o : foracle :=
+  {| f_parse := [(bs "1", bs "1"); (bs "-0", bs "-0")]; f_fmt := [(bs "1", bs "1"); (bs "-0", bs "-0")] |}.
+Definition C11_nw_tree : Newick.tree :=
+  Newick.Node (bs "d") (bs "-0") [Newick.Node (bs "a b") (bs "1") []; Newick.Node (bs "c") (bs "0") []].
+Example C11_newick_example :
+  Newick.decode C11_nw_o (bs "('a b':1,c)d:-0;") TEOF = Ok [Rec C11_nw_tree]
+  /\ Newick.decode C11_nw_o (Newick.marshal C11_nw_o C11_nw_tree) TEOF
+     = Ok [Rec (Newick.Node (bs "d") (bs "0") [Newick.Node (bs "a b") (bs "1") []; Newick.Node (bs "c") (bs "0") []])].
+Proof. vm_compute. split; reflexivity. Qed.
